@@ -183,7 +183,11 @@ func cmdCheck(args []string) int {
 	}
 	exit := 0
 	base := loadBaseline(filepath.Join(root, "baseline_obligations.json"), id)
-	retryFilter = func(k string) bool { return base.Functions[k] }
+	oldBase := map[string]bool{}
+	for k, v := range base.Functions {
+		oldBase[k] = v
+	}
+	retryFilter = func(k string) bool { return oldBase[k] }
 	var unguarded []string
 	// unbound contracts
 	for _, k := range targets {
